@@ -48,3 +48,8 @@ package actionlint
 // only an unknown callee gives the open map type
 //@ func (*RuleExpression).getWorkflowCallOutputsType
 //@   at_return [C14] m != nil && err == nil ==> result.Mapped == nil
+
+// C14: the interface a `uses:` of a repository action is checked against is the bundled entry of the
+// whole spec (owner/repo/path@ref), not of a part of it
+//@ func (*RuleAction).checkRepoAction
+//@   at_call [C14] (*RuleAction).checkAction: PopularActions.has(spec0) && meta == PopularActions[spec0]
